@@ -312,6 +312,9 @@ type DeliverOpt struct {
 	// after that moment come too late for the answer. Otherwise it runs after every event was delivered.
 	// Both are legal schedules of the waiting goroutine.
 	Eager bool
+	// DuringSend: leaf indexes whose answer reaches the root while the root's send stage is still inside the
+	// SendRequest call for that leaf (a fast node; the requests to the later targets have not been sent yet)
+	DuringSend []int
 }
 
 // DeliverResult of one root run.
@@ -331,10 +334,23 @@ func (c *Cluster) DeliverX(q string, tr timeutil.TimeRange, run *LeafRun, opt De
 	if opt.Clone {
 		stmtJSON = run.stmtJSON
 	}
-	root, _, err := c.newRoot(ctx, q, tr, run.Leaves, stmtJSON)
+	root, tm, err := c.newRoot(ctx, q, tr, run.Leaves, stmtJSON)
 	if err != nil {
 		res.Err = err
 		return
+	}
+	early := map[int]bool{}
+	if len(opt.DuringSend) > 0 {
+		for _, li := range opt.DuringSend {
+			early[li] = true
+		}
+		tm.onSend = func(target string) {
+			for li, l := range run.Leaves {
+				if l.Node == target && early[li] {
+					root.HandleResponse(run.Resps[li], l.Node)
+				}
+			}
+		}
 	}
 	tracker, planErr, err := runRootPlan(ctx, root)
 	if err != nil {
@@ -366,6 +382,9 @@ func (c *Cluster) DeliverX(q string, tr timeutil.TimeRange, run *LeafRun, opt De
 		if pos == completeAt {
 			events = append(events, event{-1})
 		}
+		if early[li] {
+			continue // delivered while its request was being sent
+		}
 		events = append(events, event{li})
 	}
 	if completeAt == len(order) {
@@ -376,7 +395,13 @@ func (c *Cluster) DeliverX(q string, tr timeutil.TimeRange, run *LeafRun, opt De
 	// baseTaskContext.tryClose calls stageTracker.Complete() (which creates the tracker's stats) exactly when it
 	// closes doneCh, synchronously inside the HandleResponse/Complete call that made the context complete:
 	// stats present <=> WaitResponse does not block. No clock involved.
+	if tracker.GetStats() != nil {
+		res.DoneAfter = 0 // done before the send stage's own completion and before the other answers
+	}
 	for i, ev := range events {
+		if res.DoneAfter == 0 && opt.Eager {
+			break
+		}
 		if ev.leaf < 0 {
 			root.Complete(nil)
 		} else {
